@@ -169,6 +169,13 @@ def client_ids(sizes):
 
 def build_datasets(case, prep):
   raws = [make_examples(ids, case['features']) for ids in client_ids(case['sizes'])]
+  if case.get('key_orders'):
+    # the same feature SET, listed in another order by some clients (dicts built
+    # by different code paths): features are matched by name, never by position
+    for j, r in enumerate(raws):
+      rot = case['key_orders'][j % len(case['key_orders'])] % max(1, len(r))
+      keys = list(r)
+      raws[j] = {k: r[k] for k in keys[rot:] + keys[:rot]}
   if prep is None:
     return raws, [fedjax.ClientDataset(r) for r in raws]
   return raws, [fedjax.ClientDataset(r, prep) for r in raws]
@@ -730,6 +737,8 @@ def padded_cases(draw, tier, federated):
     case['prep_via'] = draw(st.sampled_from(['ctor', 'chain']))
   else:
     case['kind'] = draw(st.sampled_from(ITER_KINDS))
+    if draw(st.integers(0, 2)) == 0:
+      case['key_orders'] = draw(st.lists(st.integers(0, 3), min_size=2, max_size=4))
   return case
 
 
@@ -798,6 +807,8 @@ def shuffle_batch_cases(draw, tier):
       'preps': draw(st.lists(st.sampled_from(PREPS), max_size=2)),
       'explicit_prep': draw(st.booleans()),
       'kind': draw(st.sampled_from(ITER_KINDS)),
+      'key_orders': (draw(st.lists(st.integers(0, 3), min_size=2, max_size=4))
+                     if draw(st.integers(0, 2)) == 0 else None),
   }
 
 
@@ -1062,6 +1073,19 @@ def run_shuffled_clients(case):
       streams.append(order)
     require(streams[-1] == streams[0], 'shuffled_clients:not_reproducible',
             f'seed {case["seeds"][0]}')
+    # two seeded streams of the SAME dataset object pulled in turn (a training
+    # stream next to an evaluation pass): each is still its own stream
+    it_a = fd.shuffled_clients(buffer_size=buf, seed=case['seeds'][0])
+    it_b = fd.shuffled_clients(buffer_size=buf, seed=case['seeds'][1])
+    got_a, got_b = [], []
+    for _ in range(passes * n):
+      got_a.append(next(it_a)[0])
+      got_b.append(next(it_b)[0])
+    require(got_a == streams[0] and got_b == streams[1],
+            'shuffled_clients:two_streams_of_one_dataset_disturb_each_other',
+            lambda: f'impl={case["impl"]} n={n} buffer={buf}: interleaved '
+                    f'{[c.decode() for c in got_a]} / {[c.decode() for c in got_b]} vs solo '
+                    f'{[c.decode() for c in streams[0]]} / {[c.decode() for c in streams[1]]}')
     if n >= 12 and buf >= 2:
       blocks = [o[q * n:(q + 1) * n] for o in streams for q in range(passes)]
       require(any(b != sorted(view) for b in blocks), 'shuffled_clients:trivial_order',
